@@ -2,8 +2,8 @@ from spec import *
 
 UNIT = Unit(
     name="feemul",
-    prelude=["core.rs", "state_abs.rs"],
-    lemmas=["coinsview.rs", "feemul.rs"],
+    prelude=["core.rs", "raw.rs", "iter.rs", "crypto.rs", "state_abs.rs"],
+    lemmas=["sums.rs", "coinsview.rs", "feemul.rs"],
     items=[
         TypeItem("src/state.rs", "struct", "UnsealedState"),
         Fn("src/state.rs", "move_action_fee_multiplier", impl=r"UnsealedState", home="C17",
